@@ -308,8 +308,11 @@ class C31:
           lib.mj_step(m, da)
           lib.mj_step(m2, db)
         stepped = True
-      except Exception:
-        ck.label('step-error')
+      except Exception as e:
+        # unwound mjData objects must not be deleted (ASan build checks mark/free pairing in mj_deleteData): leak them
+        object.__setattr__(da, '_own', False)
+        object.__setattr__(db, '_own', False)
+        ck.label('step-error: ' + str(e)[:80])
       if stepped:
         for f in ('qpos', 'qvel', 'act', 'sensordata', 'qacc'):
           if getattr(da, f).tobytes() != getattr(db, f).tobytes():
@@ -327,12 +330,17 @@ class C31:
     if every:
       return list(range(lay.total))
     s = set()
-    for b in lay.boundaries:
+    bs = lay.boundaries
+    if len(bs) > n_random:      # all header/size/struct boundaries, a sample of the array boundaries
+      head = [b for b in bs if b <= lay.arrays_start]
+      tail = [b for b in bs if b > lay.arrays_start]
+      bs = head + [tail[i] for i in rng.permutation(len(tail))[:n_random]] + [lay.total]
+    for b in bs:
       for d in (-1, 0, 1):
         if 0 <= b + d < lay.total:
           s.add(b + d)
     s.update(int(x) for x in rng.randint(0, lay.total, size=n_random))
-    s.update(range(0, min(lay.total, 48)))
+    s.update(range(0, min(lay.total, 24)))
     return sorted(s)
 
   def run_truncations(self, rec, lengths):
@@ -382,6 +390,7 @@ class C31:
         lib.mj_forward(m2, d)
         res['post'] = 'ok'
       except mj.MjError as e:
+        object.__setattr__(d, '_own', False)
         res['post'] = 'forward-mjerror: ' + str(e)[:120]
       note('done')
       return res
@@ -421,10 +430,11 @@ class C31:
           self.note_family('mjb-derived-size-trusted', '%s -> crash in %s during %s' % (field, fn, stage))
         elif stage == 'load':
           ck.violation(msg, replay, bucket='load-crash:%s:%s' % (kind, fn), fingerprint='mjb-load-crash:%s:%s' % (kind, fn))
-        elif cls in ('index', 'size', 'intarray', 'resize', 'header', 'truncate', 'splice'):
+        elif case.get('reference'):
           ck.violation(msg, replay, bucket='postload-crash:%s' % field, fingerprint='mjb-postload-crash:%s' % field)
         else:
-          ck.label('postload-crash-after-nonreference-corruption(%s)' % fn)
+          ck.label('postload-crash-after-nonreference-corruption')
+          self.note_family('not-judged:postload-crash-after-nonreference-corruption', '%s -> %s in %s' % (field, kind, fn))
         sample['outcome'] = 'crash:%s:%s:%s' % (stage, kind, fn)
         ck.case(nontrivial=nontrivial, key=key, sample=sample, labels=['class:' + cls, 'outcome:crash-' + stage])
         continue
@@ -477,9 +487,10 @@ class C31:
       lst.append(detail)
 
   # ---- (c1) systematic enumeration over the reference table
-  def index_cases(self, rec, per_field=2, other=False):
+  def index_cases(self, rec, per_field=2, other=False, quick=False):
     lib, m, lay = self.lib, rec['m'], rec['lay']
     out = []
+    Q = (lambda full, q: q) if quick else (lambda full, q: full)
 
     def elem_cases(field, idxs, vals, why, checkfields=None):
       off, dt, sh, nb = lay.arrays[field]
@@ -493,29 +504,32 @@ class C31:
             continue
           hx = i32(v) if isz == 4 else i64(v)
           out.append(dict(model=rec['name'], cls='index', field=field, what='%s[%d]: %d -> %d (%s)' % (
-              field, i, int(flat[i]), v, why), ops=[['set', off + i * isz, hx]], checkfields=checkfields))
+              field, i, int(flat[i]), v, why), ops=[['set', off + i * isz, hx]], checkfields=checkfields, reference=checkfields is not None or why == 'special relation'))
     for r in modelref.relations(lib):
       f = r.field
       a = np.asarray(getattr(m, f)).ravel()
       if a.size == 0 or a.dtype.kind not in 'iu':
         continue
-      idxs = sorted(set([0, a.size - 1, a.size // 2]))[:per_field + 1]
+      idxs = sorted(set([a.size - 1, 0, a.size // 2]), reverse=True)[:per_field]
       if r.kind == 'id':
         n = int(getattr(m, r.target))
-        elem_cases(f, idxs, [n, n + 7, r.lo - 1, -9, INT_MAX, INT_MIN], 'id >= %s or < %d' % (r.target, r.lo), [f])
+        elem_cases(f, idxs, Q([n, n + 7, r.lo - 1, -9, INT_MAX, INT_MIN], [n, n + 7, r.lo - 1, INT_MIN]),
+                   'id >= %s or < %d' % (r.target, r.lo), [f])
       elif r.kind == 'name':
         n = int(m.nnames)
-        elem_cases(f, idxs, [n, n + 9, -1, INT_MIN, INT_MAX], 'name address outside names', [f])
+        elem_cases(f, idxs, Q([n, n + 9, -1, INT_MIN, INT_MAX], [n, -1, INT_MAX]), 'name address outside names', [f])
       elif r.kind == 'adrnum':
         n = int(getattr(m, r.target))
         k = np.asarray(getattr(m, r.num)).ravel()
         pos = np.flatnonzero(k > 0)
         i = int(pos[-1]) if pos.size else 0
         ki, ai = int(k[i]), int(a[i])
-        elem_cases(f, [i], [n - ki + 1, n + 3, -2, INT_MAX, INT_MAX - ki + 1], 'adr+num > %s' % r.target, [f, r.num])
-        elem_cases(r.num, [i], [n - ai + 1, n + 5, -1, INT_MAX, INT_MIN], 'num too large / negative', [f, r.num])
+        elem_cases(f, [i], Q([n - ki + 1, n + 3, -2, INT_MAX, INT_MAX - ki + 1], [n - ki + 1, -2, INT_MAX]),
+                   'adr+num > %s' % r.target, [f, r.num])
+        elem_cases(r.num, [i], Q([n - ai + 1, n + 5, -1, INT_MAX, INT_MIN], [n - ai + 1, -1]),
+                   'num too large / negative', [f, r.num])
       else:
-        elem_cases(f, idxs, [1 << 20, -2, INT_MAX, INT_MIN, 7], 'special relation')
+        elem_cases(f, idxs, Q([1 << 20, -2, INT_MAX, INT_MIN, 7], [1 << 20, -2, 7]), 'special relation')
     if other:
       # int arrays outside the reference table (types, flags, counts, bvh/graph payload ...): judged by the full
       # reference check and by surviving mj_makeData + mj_forward
@@ -523,7 +537,8 @@ class C31:
       for f, (off, dt, sh, nb) in lay.arrays.items():
         if nb and dt.kind in 'iu' and dt.itemsize == 4 and f not in intable:
           a = np.asarray(getattr(m, f)).ravel()
-          elem_cases(f, sorted(set([0, a.size - 1])), [-2, 1 << 20, INT_MAX, INT_MIN], 'int field outside the table')
+          elem_cases(f, sorted(set([0, a.size - 1]))[-per_field:], Q([-2, 1 << 20, INT_MAX, INT_MIN], [-2, 1 << 20]),
+                     'int field outside the table')
     return out
 
   # ---- (c2) size fields
@@ -532,7 +547,7 @@ class C31:
     out = []
     for s in (names or lib.model_sizes):
       v = int(getattr(m, s))
-      vals = [0, v - 1, v + 1, -1, INT_MAX + 1] if quick else [0, v - 1, v + 1, v + 16, 2 * v + 1, -1, INT_MAX,
+      vals = [v - 1, v + 1, -1, INT_MAX + 1] if quick else [0, v - 1, v + 1, v + 16, 2 * v + 1, -1, INT_MAX,
                                                                 INT_MAX + 1, 1 << 40, -(1 << 40)]
       for nv in sorted(set(vals)):
         if nv == v:
@@ -650,6 +665,12 @@ def pick_cover(c, recs, rels):
 
 def main(ck):
   from vf import mj
+  import time
+  t0 = [time.time()]
+
+  def _tick(name):
+    ck.extra.setdefault('phase_seconds', {})[name] = round(time.time() - t0[0], 1)
+    t0[0] = time.time()
   c = C31(ck)
   lib = c.lib
   rng = np.random.RandomState(ck.seed)
@@ -684,10 +705,11 @@ def main(ck):
             labels=['roundtrip:generated'] + [l for l in gm.labels() if l.split(':')[0] in (
                 'mesh', 'hfield', 'texture', 'material', 'default-class', 'frame', 'replicate', 'keyframe', 'tuple',
                 'geom-adhesion', 'pair-adhesion', 'gravcomp', 'surfacevel', 'numeric', 'text', 'pair', 'exclude')])
-  ck.run_hypothesis(rt_test, st.tuples(gen_io.rich_models(max_bodies=4), mg.state_seed()), ck.budget(16, 1200),
+  ck.run_hypothesis(rt_test, st.tuples(gen_io.rich_models(max_bodies=4), mg.state_seed()), ck.budget(12, 1200),
                     name='roundtrip', shrink=False)
+  _tick('roundtrip-generated')
   files = [f for f in corpus.xml_files(lib.repo) if os.path.getsize(f) < (6000 if quick else 10 ** 9)]
-  files = [files[i] for i in rng.permutation(len(files))][:ck.budget(24, 10 ** 6)]
+  files = [files[i] for i in rng.permutation(len(files))][:ck.budget(20, 10 ** 6)]
   crecs = []
   for f, m in corpus.iter_models(lib, files):
     if int(lib.mj_sizeModel(m)) > (1 << 20 if quick else 64 << 20):
@@ -701,6 +723,7 @@ def main(ck):
     crecs.append(rec)
     ck.case(nontrivial=True, key=('rt', rec['name']), sample=dict(roundtrip='corpus', model=rec['name'],
                                                                   nbytes=rec['nbytes']), labels=['roundtrip:corpus'])
+  _tick('roundtrip-corpus')
   ck.extra['corpus_files_tried'] = len(files)
   ck.extra['corpus_roundtrips'] = len(crecs)
   if not recs and not crecs:
@@ -724,18 +747,26 @@ def main(ck):
   # ---------- (c1) systematic index corruption: each field once (first model that has it), all fields on gen_pick[0]
   done_fields = set()
   for k, r in enumerate(targets):
-    cases = [x for x in c.index_cases(r, per_field=1 if quick else 2, other=True) if x['field'] not in done_fields]
+    cases = [x for x in c.index_cases(r, per_field=1 if quick else 2, other=True, quick=quick) if x['field'] not in done_fields]
     done_fields.update(x['field'] for x in cases)
     c.run_cases(r, cases)
+  _tick('index-enumeration')
   ck.extra['int_fields_enumerated'] = len(done_fields)
   # ---------- (c2) sizes + header, (b) truncations
   for r in gen_pick[:ck.budget(1, 5)]:
-    c.run_cases(r, c.size_cases(r, quick=quick))
+    names = None
+    if quick:
+      ds = derived_sizes(lib)
+      cons = [x for x in lib.model_sizes if x not in ds]
+      names = sorted(ds) + [cons[i] for i in rng.permutation(len(cons))[:25]]
+    c.run_cases(r, c.size_cases(r, names=names, quick=quick))
     c.run_cases(r, c.header_cases(r))
-  for r in targets[:ck.budget(2, 8)]:
+  _tick('sizes-header')
+  for r in targets[:ck.budget(1, 8)]:
     every = (not quick) and r['nbytes'] < 60000
-    c.run_truncations(r, c.truncation_lengths(r, rng, ck.budget(60, 3000), every=every))
+    c.run_truncations(r, c.truncation_lengths(r, rng, ck.budget(40, 3000), every=every))
 
+  _tick('truncation')
   # ---------- (c3) random corruptions drawn by Hypothesis
   pool = targets[:ck.budget(4, 16)]
 
@@ -748,11 +779,12 @@ def main(ck):
   infos = [lay_info(lib, r) for r in pool]
   strat = st.integers(0, len(pool) - 1).flatmap(
       lambda i: st.tuples(st.just(i), random_corruptions(infos[i], 40)))
-  ck.run_hypothesis(rnd_test, strat, ck.budget(10, 1500), name='random-corruption', shrink=False)
-  ck.extra['alloc_cap_refusals'] = int(c.caph.c31_refused_count())
+  ck.run_hypothesis(rnd_test, strat, ck.budget(6, 1500), name='random-corruption', shrink=False)
 
+  _tick('random')
   # ---------- (d) libFuzzer
   fuzz(ck, c, recs + crecs)
+  _tick('fuzz')
 
 
 def fuzz(ck, c, recs):
@@ -773,14 +805,14 @@ def fuzz(ck, c, recs):
     with open(os.path.join(cdir, 'seed%03d.mjb' % n), 'wb') as f:
       f.write(r['data'])
     n += 1
-  secs = ck.budget(20, 600)
+  secs = ck.budget(15, 600)
   jobs = 1 if ck.quick else 4
   cmd = [exe, cdir, '-max_total_time=%d' % secs, '-artifact_prefix=' + adir + '/', '-max_len=400000', '-timeout=20',
          '-rss_limit_mb=3000', '-malloc_limit_mb=512', '-seed=%d' % ck.seed, '-print_final_stats=1', '-len_control=0']
   if jobs > 1:
     cmd += ['-fork=%d' % jobs, '-ignore_crashes=1', '-ignore_timeouts=1', '-ignore_ooms=1']
   env = dict(os.environ)
-  env.pop('LD_PRELOAD', None)
+  env['LD_PRELOAD'] = vb.ASAN_RT
   env['ASAN_OPTIONS'] = 'detect_leaks=0:allocator_may_return_null=1:abort_on_error=0:exitcode=77:max_allocation_size_mb=512'
   p = subprocess.run(cmd, capture_output=True, text=True, env=env, timeout=secs + 300, errors='replace')
   log = p.stderr
